@@ -307,7 +307,9 @@ class Runnable(UsesState, HasLabel, HasRun, ABC):
             result = self.process_run_result(run_output)
             self._run_succeeded(**kwargs)
             return result
-        except Exception as e:
+        except (Exception, KeyboardInterrupt) as e:
+            # The same exceptions as `_run` handles for a local run -- an executor-run
+            # failure must not look like a completed run
             self._run_exception(**run_exception_kwargs)
             if raise_run_exceptions:
                 raise e
